@@ -144,10 +144,58 @@ func statusFields(tid int) map[string]string {
 		return nil
 	}
 	m := map[string]string{}
-	for _, k := range []string{"Seccomp", "Seccomp_filters", "NoNewPrivs"} {
+	for _, k := range []string{"Seccomp", "Seccomp_filters", "NoNewPrivs", "State"} {
 		m[k] = field(string(b), k)
 	}
+	// A thread that was already exiting when a thread-sync load ran is skipped by
+	// the kernel (seccomp_sync_threads ignores PF_EXITING tasks) and its filter is
+	// released on exit; it never runs user code again. The flag is read after the
+	// seccomp fields: exiting-at-load implies exiting-now.
+	m["Exiting"] = "0"
+	if sb, err := os.ReadFile(fmt.Sprintf("/proc/self/task/%d/stat", tid)); err == nil {
+		st := string(sb)
+		if i := lastIndexByte(st, ')'); i >= 0 {
+			f := fieldsOf(st[i+1:])
+			if len(f) > 6 {
+				var flags uint64
+				fmt.Sscan(f[6], &flags)
+				if flags&0x4 != 0 { // PF_EXITING
+					m["Exiting"] = "1"
+				}
+			}
+			if len(f) > 0 && (f[0] == "Z" || f[0] == "X") {
+				m["Exiting"] = "1"
+			}
+		}
+	} else {
+		m["Exiting"] = "1" // gone
+	}
 	return m
+}
+
+func lastIndexByte(s string, c byte) int {
+	for i := len(s) - 1; i >= 0; i-- {
+		if s[i] == c {
+			return i
+		}
+	}
+	return -1
+}
+
+func fieldsOf(s string) []string {
+	var out []string
+	start := -1
+	for i := 0; i <= len(s); i++ {
+		if i == len(s) || s[i] == ' ' || s[i] == '\n' {
+			if start >= 0 {
+				out = append(out, s[start:i])
+				start = -1
+			}
+		} else if start < 0 {
+			start = i
+		}
+	}
+	return out
 }
 
 func field(status, key string) string {
